@@ -135,6 +135,27 @@ def sop_init(env):
     env.raises('non_optimizer_rejected', TypeError, lambda: sch.StopOnPlateau(object(), steps=M))
 
 
+@obligation('C20.controllers.options_as_given', functions=[f'{STP}:ReduceToBason.__init__', f'{SCH}:StopOnPlateau.__init__'], max_paths=32)
+def options_as_given(env):
+    """the thresholds the stopping conditions are stated with are the ones the caller configured - also an explicit zero (tol = 0: never stop
+    on tol for positive losses; decreasing = 0: equal losses are not failed decreases)"""
+    stp = env.load(STP); sch = env.load(SCH); optm = env.load('pypose.optim.optimizer')
+    class Opt(optm._Optimizer):
+        def __init__(self): pass
+    M = env.scalar('max_steps', positive=True)[0]; P = env.scalar('patience', positive=True)[0]
+    d = env.scalar('d', regimes=('generic', 'zero'))[0]; tol = env.scalar('tol', regimes=('generic', 'zero'))[0]
+    f = stp.ReduceToBason(steps=M, patience=P, decreasing=d, tol=tol)
+    env.eq('ReduceToBason: decreasing as given', f.decreasing, d); env.eq('ReduceToBason: tol as given', f.tol, tol)
+    env.eq('ReduceToBason: patience as given', f.patience, P); env.eq('ReduceToBason: budget as given', f.max_steps, M)
+    for z in (0, 0.0):
+        f0 = stp.ReduceToBason(steps=7, patience=3, decreasing=z, tol=z)
+        env.holds(f'ReduceToBason: explicit zero thresholds ({z!r}) are kept', f0.decreasing == 0 and f0.tol == 0 and f0.patience == 3 and f0.max_steps == 7)
+        s0 = sch.StopOnPlateau(Opt(), steps=7, patience=3, decreasing=z)
+        env.holds(f'StopOnPlateau: explicit zero threshold ({z!r}) is kept', s0.decreasing == 0 and s0.patience == 3 and s0.max_steps == 7)
+    s = sch.StopOnPlateau(Opt(), steps=M, patience=P, decreasing=d)
+    env.eq('StopOnPlateau: decreasing as given', s.decreasing, d); env.eq('StopOnPlateau: patience as given', s.patience, P)
+
+
 # ---- driver loops -------------------------------------------------------------------------------
 
 class DriverLoop(loopcut.LoopContract):
@@ -151,6 +172,7 @@ class DriverLoop(loopcut.LoopContract):
         c.patience_count = env.scalar('count_h', nonneg=True, regimes=('zero', 'generic'))[0]
         c._continual = True if bool(c.steps < c.max_steps) and bool(env.scalar('cont_h', regimes=('generic',))[0] > 0) else False
         self.steps_at_head = c.steps
+        self.cont_at_head = c._continual
         self.calls = 0
         if self.on_enter: self.on_enter()
     def back(self, frame):
@@ -166,6 +188,9 @@ def count_calls(lc, ctrl):
     real = ctrl.step
     def step(*a, **k):
         lc.calls += 1
+        # "once false it stays false until reset": a driver must not make another step (an optimizer / LQR / ICP iteration and a controller
+        # step) after the controller has said stop - also not as the first action of a later call of the driver
+        lc.env.holds('the driver steps only while the controller says continue', bool(getattr(lc, 'cont_at_head', True)))
         return real(*a, **k)
     ctrl.step = step
 
@@ -206,6 +231,9 @@ def _optimize_numeric(env):
     s.optimize(input=None)
     env.holds('iterations_within_budget', it[0] <= M)
     env.holds('exit_only_when_not_continual', not s.continual())
+    n1 = it[0]
+    s.optimize(input=None)          # the controller has said stop and was not reset: a second call of the driver makes no step
+    env.holds('the driver steps only while the controller says continue', it[0] == n1)
 
 
 @obligation('C20.MPC.forward.loop', functions=['pypose.module.mpc:MPC.forward'], max_paths=64,
